@@ -235,17 +235,25 @@ def check_case(case, ctx):
                    cls=case["ckind"])
         selb = world.b(sel)
         get_headers = {}
-        for form in FORMS:
+        # a URL client may leave RFC 3986 sub-delims, ':' and '@' of a path segment unescaped: second spelling of the path
+        lenient = clients.pct(selb, clients._UNRESERVED + b"!$&'()*+,;=:@")
+        plan = [(f, None) for f in FORMS]
+        if lenient != clients.pct(selb):
+            plan += [(f, lenient) for f in FORMS if clients.FORMS[f][1] not in ("gopher", "gplus", "gdollar", "gbang")]
+            ctx.label("lenient-url-spelling")
+        for form, raw_path in plan:
             tls, fam = clients.FORMS[form]
-            req = clients.encode(form, selb)
+            req = clients.encode(form, selb, raw_path=raw_path)
             r = drive.serve(cfg, req, tls=tls, realfd=bool(decomp))
-            tag = "%s" % fam
+            tag = "%s" % fam + ("~lenient" if raw_path is not None else "")
             if r.escaped is not None or [c for c in r.exception_classes()]:
                 fails.append(Fail("error:%s:%s" % (tag, (r.exception_classes() or [drive.exc_signature(r.escaped) if r.escaped else "?"])[0]),
                                   "%s request for %r failed: %s" % (form, sel, r.logs[-1:]),
                                   {"response": world.u(r.response[:200])}))
                 continue
             pr = clients.parse_response(form, r.response, expect_menu=False)
+            if raw_path is not None:
+                form = form + "~lenient"
             if pr.problems or not pr.ok:
                 fails.append(Fail("not-served:%s" % tag, "%s request for %r not served: %s %r" % (
                     form, sel, pr.problems, r.response[:120])))
